@@ -203,7 +203,7 @@ def run(ck, ctx):
                       "dominated by a test excluding 1 - index == 0" if ok else
                       "no dominating guard: index = 1.0 divides by zero",
                       construct=f"{nm}: division by 1 - index")
-        ck.floor("R12.2", n, 3, "index-dependent divisions in the spectrum helpers")
+        ck.floor("R12.2", n, 2, "index-dependent divisions in the spectrum helpers")
     ck.guard(r122, "R12.2")
 
     # ---------------------------------------------------------------- R12.3 reciprocity
